@@ -153,7 +153,7 @@ def main():
         harness_error = traceback.format_exc()
         print(harness_error)
 
-    if src_changed and harness_error is None and not res.failures and tier == 'quick':
+    if src_changed and harness_error is None and not res.failures and tier == 'quick' and time.time() - t0 < float(os.environ.get('VERIF_SECOND_PASS_WITHIN', '300')):
         ctx.rng = random.Random(seed * 104729 + 31 + int(pid[1:]))
         try:
             mod.run(ctx)
